@@ -1,4 +1,5 @@
 import JugModel.Model.KeepAliveLock
+import JugModel.Model.KeepAlive
 import JugModel.Driver.Util
 open Lean
 namespace Jug.Drv
@@ -25,6 +26,24 @@ def handleKALock (op : String) (j : Json) : Option Json :=
       | [] => []
       | o :: os => let r := step s o; kaSt r.1 r.2 :: go r.1 os
     some <| Json.mkObj [("trace", Json.arr (go init ops).toArray)]
+  | _ => none
+
+/-- op "karun": {"period","rounds","expiry","sched":[[δ, "ok"|"parentGone"|"lockGone"], ...]} -> the whole life of the helper
+    (Jug.KeepAlive.runEnv) from the state right after `get()`: final now / mtime / counter and whether it is still running -/
+def handleKARun (op : String) (j : Json) : Option Json :=
+  match op with
+  | "karun" =>
+    let c : Jug.KeepAlive.Consts := { period := getNat j "period", rounds := getNat j "rounds", expiry := getNat j "expiry" }
+    let envOf : String → Option Jug.KeepAlive.Env
+      | "ok" => some .ok | "parentGone" => some .parentGone | "lockGone" => some .lockGone | _ => none
+    let sched := (getArr j "sched").toList.filterMap fun x =>
+      match x.getArr?.toOption.map Array.toList with
+      | some [d, e] => (envOf (e.getStr?.toOption.getD "")).map fun env => ((d.getNat?.toOption.getD 0), env)
+      | _ => none
+    if sched.length != (getArr j "sched").size then some (Json.mkObj [("error", Json.str "bad-sched")]) else
+    let r := Jug.KeepAlive.runEnv c { now := 0, mtime := 0, counter := c.rounds } sched
+    some <| Json.mkObj [("now", toJson r.1.now), ("mtime", toJson r.1.mtime), ("counter", toJson r.1.counter), ("running", Json.bool r.2),
+      ("failedAt", toJson (r.1.mtime + c.expiry))]
   | _ => none
 
 end Jug.Drv
